@@ -531,6 +531,53 @@ def known_findings(ev):
                 ev.known_hits[k["signature"]] = k["what"]
 
 
+# Values that outlive the query that made them: the command line tool compiles, runs and destroys the expression of
+# every --a argument before the main query runs, and hands the values over; a value must carry (or keep alive)
+# everything it needs.  X is the --a expression, P the program that uses its values; `--a X -e P` = `-e "X P"`.
+OUTLIVE_MAKERS = ["{|A| A 1 add}", "{|A| {|B| A B add}}", "let K := 7; {|A| K A add}", "{|A| [A, {A 2 mul}]}", "({|A| A}, {|A| A A mul})",
+                  "let G := {|A| A 2 mul}; {|B| B G 1 add}", "[{|A| A 1 add}, {|A| A 10 add}]", "{|A| A (1 add)* (pos < 3)}", "{|A| \"<%( A %)>\"}",
+                  "let S := \"abc\"; {|A| S length A add}", "{|A| if (A > 2) then {A 1 sub} else {A 100 add}}", "{|A| let B := A 1 add; {|C| A B C add add}}",
+                  "[1, 2, 3]", "\"str\"", "{}", "{|A| }", "let M := [5, 6]; {|A| M elem A add}", "{|F| 3 F}"]
+OUTLIVE_USERS = ["(|F| 41 F)", "(|F| 5 F (|G| 10 G))", "(|F| 3 F elem)", "(|F| F elem (|G| 4 G))", "(|F| [1 F, 2 F])", "(|F| 2 F (|R| R))", "(|F| (1, 2, 3) F)",
+                 "(|F| {|A| A F} (|H| 6 H))", "(|F| 4 F (|G| G))", "(|F| [F] elem (|G| 9 G))", "(|F| F length)", "(|F| {|A| A 1 add} F)", "(|F| 1 F 2 F add)"]
+
+
+def work_outlive(task):
+    import subprocess
+    lo, hi = task
+    ev = Evidence()
+    cli = os.path.join(BUILD, "bin", "dwgrep")
+    env = dict(os.environ, ASAN_OPTIONS="detect_leaks=0:abort_on_error=0", UBSAN_OPTIONS="print_stacktrace=1:halt_on_error=1")
+    pairs = [(x, p_) for x in OUTLIVE_MAKERS for p_ in OUTLIVE_USERS]
+    for x, p_ in pairs[lo:hi]:
+        try:
+            a = subprocess.run([cli, "-h", "--a", x, "-e", p_], stdout=subprocess.PIPE, stderr=subprocess.PIPE, env=env, timeout=120)
+            b = subprocess.run([cli, "-h", "-e", "(%s) %s" % (x, p_) if not x.startswith("let ") else "%s %s" % (x, p_)], stdout=subprocess.PIPE, stderr=subprocess.PIPE, env=env, timeout=120)
+            # two arguments: every combination
+            c = subprocess.run([cli, "-h", "--a", x, "--a", "(1, 2)", "-e", "drop %s" % p_], stdout=subprocess.PIPE, stderr=subprocess.PIPE, env=env, timeout=120)
+        except subprocess.TimeoutExpired:
+            ev.inconc("watchdog")
+            continue
+        ev.case(key=("outlive", x, p_), nontrivial=b.returncode == 0)
+        ev.label("value-outlives-its-query")
+        if b.returncode == 0:
+            ev.label("value-outlives-its-query:applied")
+        why = None
+        for r, what in ((a, "--a X -e P"), (c, "--a X --a '(1, 2)' -e 'drop P'")):
+            if r.returncode not in (0, 1, 2) or b"Sanitizer" in r.stderr or b"runtime error" in r.stderr:
+                why = "%s: the tool died (status %d): %s" % (what, r.returncode, r.stderr.decode("latin-1")[-2500:])
+                break
+        canon = (lambda t: sorted(t.split(b"\n"))) if x.startswith("(") else (lambda t: t)      # (the order in which an alternation re-fed with a second input yields is not specified)
+        if why is None and (a.returncode, canon(a.stdout)) != (b.returncode, canon(b.stdout)):
+            why = "`--a X -e P` prints %r (status %d), the one query `X P` prints %r (status %d); stderr %r" % (a.stdout[:200], a.returncode, b.stdout[:200], b.returncode, a.stderr[-300:])
+        if why is None and b.returncode == 0 and not x.startswith("(") and c.stdout != b.stdout * 2:
+            why = "`--a X --a '(1, 2)' -e 'drop P'` prints %r, twice the output of `X P` is %r" % (c.stdout[:200], (b.stdout * 2)[:200])
+        if why:
+            ev.violations.append({"property": PID, "kind": "outlive", "maker": x, "user": p_, "query": "--a '%s' -e '%s'" % (x, p_), "reason": why, "signature": "C13:outlive:%s:%s" % (x, p_)})
+    ev.sample({"value_outlives_query": "--a '{|A| {|B| A B add}}' -e '(|MK| 5 MK (|ADD| 10 ADD))'", "expect": "15, as from the one query"})
+    return ev
+
+
 def work_asets(task):
     """Address-set expressions (the only values with a non-trivial C++ container behind them that the core
     generator does not produce), each element pulled one by one and abandoned at every point."""
@@ -565,6 +612,8 @@ def main(tier, seed):
     known_findings(ev)
     na = 1200 if tier == "quick" else 30000
     ev.merge(run_pool(work_asets, [(seed, s_, min(60, na - s_)) for s_ in range(0, na, 60)]))
+    npairs = len(OUTLIVE_MAKERS) * len(OUTLIVE_USERS)
+    ev.merge(run_pool(work_outlive, [(lo, lo + 8) for lo in range(0, npairs, 8)]))
     ev.merge(run_pool(work_named_arith, [(lo, lo + 400) for lo in range(0, 6400, 400)]))
     ev.merge(run_pool(work_runtime_failures, [(lo, lo + 2) for lo in range(0, len(FAIL_CONTEXTS), 2)]))
     ev.merge(run_pool(work_errors, [(lo, lo + 4) for lo in range(0, len(ERROR_TEMPLATES), 4)]))
@@ -618,6 +667,7 @@ def main(tier, seed):
                   assumptions=["uninstrumented libdw/libelf internals are trusted",
                                "dynamic detection on executed paths only"],
                   health={"fuzzer ran": feats > 0, "integer edges under UBSan": ev.labels.get("int-edge", 0) > 3000, "backquoted captures with >= 4 backquotes": ev.labels.get("backtick-capture:4+", 0) > 500, "nested closures ran": ev.labels.get("closure-nest", 0) > 2000 and ev.labels.get("closure-nest:rejected", 0) < 100, "leak checks ran": ev.labels.get("leak-checks", 0) > 0,
+                          "values applied after their query is gone": ev.labels.get("value-outlives-its-query:applied", 0) > 60,
                           "non-empty result sets were abandoned": ev.labels.get("abandoned-non-empty", 0) > 0})
 
 
